@@ -34,8 +34,17 @@ def r1_open_cost(ck, F):
     ios = fmt.io_calls(b)
     seeks = [x for x in ios if x[1] == "seek"]
     reads = [x for x in ios if x[1] == "read"]
-    ck.ob(R, "open-io-is-trailer-only", len(seeks) == 3 and sum(x[2] for x in reads) == 4 + 17 + 18 and not [x for x in ios if x[1] not in ("seek", "read")] and not b.loops(),
-          f"Metadata::read_from: {len(seeks)} seek sites (1 + one per version arm), fixed-width reads totalling 4 + 17 | 18 bytes, no loop", b)
+    # per format version (the body specialised to each accepted magic): two seeks and fixed-width reads of the
+    # magic plus that version's record — however the two versions share their code
+    tr = fmt.trailer_read(F)
+    per = {}
+    for ver, size in (("FormatV1", 17), ("FormatV2", 18)):
+        a_ = tr.get(ver, {})
+        seq = [tuple(x) for x in a_.get("seq", [])]
+        per[ver] = (sum(1 for x in seq if x == ("seek",)) + 1, 4 + sum(x[0] for x in seq if x != ("seek",)))
+    okv = per.get("FormatV1") == (2, 21) and per.get("FormatV2") == (2, 22)
+    ck.ob(R, "open-io-is-trailer-only", okv and not [x for x in ios if x[1] not in ("seek", "read")] and not b.loops(),
+          f"Metadata::read_from: (seeks, bytes read) per version = {per} (expected 2 seeks and 4 + 17 | 18 bytes), no other I/O, no loop", b)
     for name in ("into_cursor", "into_prefix_iter", "into_rev_prefix_iter", "into_range_iter", "into_rev_range_iter"):
         bd, ex, _ = closure_of(F, "reader::Reader::<R>::" + name)
         io = [n for n in ex if n.startswith("std::io::") or n.startswith("byteorder::")]
